@@ -208,7 +208,11 @@ func (cx *Ctx) checkRedirectTarget(r *Report, rule string) {
 	cx.stopParts = isQuery
 	defer func() { cx.stopParts = nil }()
 	n := 0
-	for _, c := range callsIn(sb) {
+	var all []ssa.CallInstruction
+	for _, g := range cx.privateHelpers(sb) {
+		all = append(all, callsIn(g)...)
+	}
+	for _, c := range all {
 		if calleeName(c) != "net/http.Redirect" || len(c.Common().Args) < 3 {
 			continue
 		}
